@@ -271,29 +271,40 @@ template <class E, class CQ> void container_family(char const *qual)
             draw_n("direct", j, [&]() -> ref_t { return u(g); }, rd2);
             U uc(u);
             RD rc(rd2);
-            U ua(fcppt::reference<CQ>(other), full);
-            ua = u; // must now refer to c, not to other
-            RD ra(rd2);
             U t1(u);
             U um(std::move(t1));
             RD rm(rd2);
             draw_n("distribution_copy_constructed", HIST_N, [&]() -> ref_t { return uc(g); }, rc);
-            draw_n("distribution_copy_assigned", HIST_N, [&]() -> ref_t { return ua(g); }, ra);
             draw_n("distribution_move_constructed", HIST_N, [&]() -> ref_t { return um(g); }, rm);
+            // assignability of uniform_container / variate is not documented: exercised only while it exists
+            if constexpr (std::is_copy_assignable_v<U>)
+            {
+              U ua(fcppt::reference<CQ>(other), full);
+              ua = u; // must now refer to c, not to other
+              RD ra(rd2);
+              draw_n("distribution_copy_assigned", HIST_N, [&]() -> ref_t { return ua(g); }, ra);
+            }
+            else
+              vrt::count("info:uniform_container_not_assignable");
             V v(fcppt::make_ref(g), u);
             RD rv(rd2);
             draw_n("variate_direct", j, [&]() -> ref_t { return v(); }, rv);
             V vc(v);
             RD rvc(rv);
-            V va(fcppt::make_ref(g), U(fcppt::reference<CQ>(other), full));
-            va = v;
-            RD rva(rv);
             V t2(v);
             V vm(std::move(t2));
             RD rvm(rv);
             draw_n("variate_copy_constructed", HIST_N, [&]() -> ref_t { return vc(); }, rvc);
-            draw_n("variate_copy_assigned", HIST_N, [&]() -> ref_t { return va(); }, rva);
             draw_n("variate_move_constructed", HIST_N, [&]() -> ref_t { return vm(); }, rvm);
+            if constexpr (std::is_copy_assignable_v<V>)
+            {
+              V va(fcppt::make_ref(g), U(fcppt::reference<CQ>(other), full));
+              va = v;
+              RD rva(rv);
+              draw_n("variate_copy_assigned", HIST_N, [&]() -> ref_t { return va(); }, rva);
+            }
+            else
+              vrt::count("info:variate_not_assignable");
             draw_n("variate_original_after_copies", HIST_N, [&]() -> ref_t { return v(); }, rv);
             draw_n("distribution_original_after_copies", HIST_N, [&]() -> ref_t { return u(g); }, rd2);
           }
